@@ -26,6 +26,8 @@ fn main() {
             let known = load_known("/verif/known_findings.json");
             let mut ctx = Ctx::new(&prop, tier, seed, threads, known);
             ctx.strict = args.iter().any(|a| a == "--strict");
+            ctx.only = arg(&args, "--only");
+            ctx.scale = arg(&args, "--scale").and_then(|s| s.parse().ok()).unwrap_or(1.0);
             let ctx = std::sync::Arc::new(ctx);
             // watchdog: no progress for a long time => exit 2 (inconclusive, never a violation)
             {
